@@ -306,3 +306,48 @@ contract(
              ("stripped", "forall(self.entries, lambda p: strip(p.label) == p.label)"),
              ("sorted", "is_sorted(self.entries)")],
 )
+
+
+# ---- union / difference: the class invariant carried through the loop (R-INV, pyvc/folds.py).  What is proved is
+# that the result is a well-formed tier for all operands (C05's invariant argument, C10's "result is a tier"); the
+# labelled-time algebra of C10 is decided by the bounded check c10_setops.
+TT = "praatio.data_classes.textgrid_tier.TextgridTier"
+
+
+def cls_name(obj):
+    return obj.cls.name if hasattr(obj, "cls") else type(obj).__name__
+
+
+def inv_tier(S, tag, cur):
+    """an arbitrary well-formed tier of the class of the carried one (entries pairwise distinguishable, as R-ERASE
+    needs for the delete loops inside eraseRegion / insertEntry)"""
+    return distinct_interval_tier(S, tag) if cls_name(cur) == "IntervalTier" else strict_point_tier(S, tag)
+
+
+POINT_WF = [("in-span", "forall(%s.entries, lambda p: %s.minTimestamp <= p.time and p.time <= %s.maxTimestamp)"),
+            ("stripped", "forall(%s.entries, lambda p: strip(p.label) == p.label)"),
+            ("sorted", "is_sorted(%s.entries)"),
+            # what PointTier.insertEntry's contract assumes of its receiver: no two points at one time
+            ("distinct-times", "adjacent(%s.entries, lambda a, b: a.time < b.time)")]
+
+
+def wf_clauses(r):
+    return lambda cur: (wf_interval_clauses(r) if cls_name(cur) == "IntervalTier"
+                        else [(l, t.replace("%s", r)) for l, t in POINT_WF])
+
+
+def two_tiers(S, cfg):
+    if cfg["kind"] == "interval":
+        return dict(self=distinct_interval_tier(S, "self"), tier=distinct_interval_tier(S, "tier"))
+    return dict(self=strict_point_tier(S, "self"), tier=distinct_point_tier(S, "tier"))
+
+
+INV = {"loop#1": {"invariant": {"var": "retTier", "builder": inv_tier, "clauses": wf_clauses("retTier")}}}
+
+contract(TT + ".union", serves=["C05", "C10"], spec_module="spec.tiers",
+         configs={"kind": ["interval", "point"]}, inputs=two_tiers, loops=INV, frame=["self", "tier"],
+         ensures=[("well-formed", "well_formed(result)")])
+
+contract(IT + ".difference", serves=["C05", "C10"], spec_module="spec.tiers",
+         configs={"kind": ["interval"]}, inputs=two_tiers, loops=INV, frame=["self", "tier"],
+         ensures=[("well-formed", "well_formed(result)")])
